@@ -16,6 +16,7 @@
 -/
 import Ctrmml.Proofs.Refs
 import Ctrmml.Proofs.Reader
+import Ctrmml.Proofs.Reader2
 import Ctrmml.Spec.Diag
 namespace Ctrmml.Properties.C17
 open Ctrmml Ctrmml.Lexer Ctrmml.TrackBuilder Ctrmml.Refs Ctrmml.Player Ctrmml.Tables
@@ -110,6 +111,37 @@ theorem C17_event_ref_is_command_start (b : LineBuffer) (hb : ∀ x ∈ b.buf, x
 
 example : ({ buf := [65, 32, 32, 99, 52], column := 1 } : LineBuffer).getToken.2.unget
     ({ buf := [65, 32, 32, 99, 52], column := 1 } : LineBuffer).getToken.1 = .ok { buf := [65, 32, 32, 99, 52], column := 3 } := by rfl
+
+/-- "for a character that is not a command the column is exactly that character's": when the
+reader stands on a non-blank character inside the line (where `parse_mml_track` has just stamped
+the reference, see the previous theorem) and all three command parsers decline it, none of them
+has moved the reader or changed the line, so `parse_error("unknown MML command")` is raised with
+exactly the line and column of that character. -/
+theorem C17_unknown_command_column (s s1 s2 s3 : Mml.MmlState) (hb : ∀ x ∈ s.inp.lb.buf, x < 256)
+    (hk : s.inp.lb.column < s.inp.lb.buf.length)
+    (hnb : isBlank (schar (s.inp.lb.buf[s.inp.lb.column]'hk)) = false)
+    (h1 : Mml.mmlBasic s = .ok true s1) (h2 : Mml.mmlControl s1 = .ok true s2) (h3 : Mml.mmlEnvelope s2 = .ok true s3) :
+    s3 = s ∧ (Mml.parseError "unknown MML command" : Mml.P Unit) s3 =
+      .err (.input "unknown MML command" { line := s.inp.line, column := s.inp.lb.column }) s := by
+  have hd := Reader2.declined_at_command s hb hk hnb
+  have e1 : s1 = s := by
+    have := Reader2.mmlBasic_true s s1 h1
+    rw [hd] at this; cases this; rfl
+  subst e1
+  have e2 : s2 = s1 := by
+    have := Reader2.mmlControl_true s1 s2 h2
+    rw [hd] at this; cases this; rfl
+  subst e2
+  have e3 : s3 = s2 := by
+    have := Reader2.mmlEnvelope_true s2 s3 h3
+    rw [hd] at this; cases this; rfl
+  subst e3
+  exact ⟨rfl, rfl⟩
+
+/-- the hypotheses are satisfiable: `?` on line 4, column 2 of `A ?` is declined by all three -/
+example : ∃ s : Mml.MmlState, s.inp.lb.column < s.inp.lb.buf.length ∧
+    Mml.mmlBasic s = .ok true s ∧ Mml.mmlControl s = .ok true s ∧ Mml.mmlEnvelope s = .ok true s :=
+  ⟨{ inp := { lb := { buf := [65, 32, 63], column := 2 }, line := 4 } }, by decide, by rfl, by rfl, by rfl⟩
 
 /-- the full reader statement of the design (every `parse_error` site of `parse_mml_track`): the
 error is on the line being read, at or after the first character of the command being read and at
